@@ -345,7 +345,7 @@ struct Ev { kind: u8, k: u64, v: u64, some: bool, s: u64, e: u64 } // kind: b'g'
 #[derive(Clone, Copy, Debug)]
 struct PutRec { k: u64, v: u64, old: Option<u64>, ok: bool, s: u64, e: u64 }
 
-struct ConcPlan { readers: usize, writers: usize, removers: usize, ops: usize, nkeys: u64, clear_pct: u64, ample: bool }
+struct ConcPlan { readers: usize, writers: usize, removers: usize, ops: usize, nkeys: u64, clear_pct: u64, ample: bool, prefill: u64 }
 
 /// Run the free-running workload. put()/clear() are serialised by `wlock` (put||put and put||clear can deadlock inside
 /// LruMap: lock-order inversion between evict_lru and the update path, see REPORT), get/remove run unserialised.
@@ -353,6 +353,11 @@ fn conc_run(c: &mut Case, map: Arc<dyn ConcMap>, rec: RecU, plan: &ConcPlan, cap
     let clock = Arc::new(AtomicU64::new(1)); let seq = Arc::new(AtomicU64::new(1));
     let n = plan.readers + plan.writers + plan.removers; let barrier = Arc::new(Barrier::new(n)); let finished = Arc::new(AtomicUsize::new(0));
     let wlock: Arc<Mutex<(Vec<PutRec>, Vec<(u64, u64)>, Vec<(u64, u64, u64)>, Vec<String>)>> = Arc::new(Mutex::new((vec![], vec![], vec![], vec![]))); // puts in order, clears (s,e), callbacks (k,v,stamp)
+    if plan.prefill > 0 { // sequential fill by this thread, logged like any other put (huge_* workloads: start from a full map)
+        let mut g = wlock.lock().unwrap();
+        for k in 0..plan.prefill { let v = (k << 32) | seq.fetch_add(1, Ordering::SeqCst); let s = clock.fetch_add(1, Ordering::SeqCst); let r = map.put(k, v); let e = clock.fetch_add(1, Ordering::SeqCst);
+            let (ok, old) = match r { Ok(o) => (true, o), Err(er) => { g.3.push(format!("prefill: {er}")); (false, None) } }; g.0.push(PutRec { k, v, old, ok, s, e }); for (ck, cv) in rec.take() { g.2.push((ck, cv, e)); } }
+    }
     let mut handles = vec![];
     for t in 0..n {
         let (map, rec, clock, seq, barrier, finished, wlock) = (map.clone(), rec.clone(), clock.clone(), seq.clone(), barrier.clone(), finished.clone(), wlock.clone());
@@ -437,7 +442,7 @@ fn conc_case(c: &mut Case, shards: usize, workload: &str) -> Res {
     let cap = *c.rng.pick(&[1usize, 1, 2, 3]); let ample = workload == "ample";
     let tot = (cap * shards.max(1)) as u64; let nkeys = if ample { 2 + c.rng.below(3) } else { tot + 1 + c.rng.below(tot + 1) };
     let cap = if ample { 8 } else { cap };
-    let plan = ConcPlan { readers: 2 + c.rng.usize_below(3), writers: 1 + c.rng.usize_below(2), removers: if ample { 0 } else { c.rng.usize_below(2) }, ops: if c.tier == crate::ctx::Tier::Quick { 1500 } else { 6000 }, nkeys, clear_pct: if workload == "clear" { 2 } else { 0 }, ample };
+    let plan = ConcPlan { readers: 2 + c.rng.usize_below(3), writers: 1 + c.rng.usize_below(2), removers: if ample { 0 } else { c.rng.usize_below(2) }, ops: if c.tier == crate::ctx::Tier::Quick { 1500 } else { 6000 }, nkeys, clear_pct: if workload == "clear" { 2 } else { 0 }, ample, prefill: 0 };
     c.input_str("cfg", &format!("shards={shards} cap_per_shard={cap} nkeys={nkeys} readers={} writers={} removers={} ops={} workload={workload}", plan.readers, plan.writers, plan.removers, plan.ops));
     let s = c.rng.next(); c.input("rngstate", &s.to_le_bytes()); c.set_nontrivial(true); if workload == "clear" { c.tag("clear_nonfull"); } if !ample { c.tag("conc_get_vs_evicting_put"); if plan.removers > 0 { c.tag("conc_remove_vs_put"); } }
     let rec = RecU::default();
@@ -682,6 +687,267 @@ fn fsacache_case(c: &mut Case, strat: CacheStrategy) -> Res {
 }
 
 // =============================================================================================
+// Part 6: large-input families (`huge_*`): capacities just above 2^16 / 2^17 / 2^18, > 65536 evictions, node indices and ids > 65535,
+// sparse files > 4 GiB (page ids >= 2^20 and 2^16), multi-MiB reads through tiny caches. Cheap exact oracles (O(log n) LRU model, pread).
+// =============================================================================================
+/// O(log n) exact LRU model of one shard: key -> (value id, stamp), stamp -> key.
+struct FastLru { cap: usize, map: HashMap<u64, (u64, u64)>, order: std::collections::BTreeMap<u64, u64>, tick: u64 }
+impl FastLru {
+    fn new(cap: usize) -> FastLru { FastLru { cap, map: HashMap::new(), order: Default::default(), tick: 0 } }
+    fn touch(&mut self, k: u64) { if let Some(e) = self.map.get_mut(&k) { self.order.remove(&e.1); self.tick += 1; e.1 = self.tick; self.order.insert(self.tick, k); } }
+    fn get(&mut self, k: u64) -> Option<u64> { let v = self.map.get(&k)?.0; self.touch(k); Some(v) }
+    fn put(&mut self, k: u64, v: u64) -> (Option<u64>, Option<(u64, u64)>) {
+        if let Some(e) = self.map.get_mut(&k) { let old = e.0; e.0 = v; self.touch(k); return (Some(old), None); }
+        let ev = if self.map.len() >= self.cap { let (&st, &vk) = self.order.iter().next().unwrap(); self.order.remove(&st); let e = self.map.remove(&vk).unwrap(); Some((vk, e.0)) } else { None };
+        self.tick += 1; self.map.insert(k, (v, self.tick)); self.order.insert(self.tick, k); (None, ev)
+    }
+    fn remove(&mut self, k: u64) -> Option<u64> { let e = self.map.remove(&k)?; self.order.remove(&e.1); Some(e.0) }
+    fn peek(&self, k: u64) -> Option<u64> { self.map.get(&k).map(|e| e.0) }
+}
+/// Per-shard exact model for huge histories; the shard of a key is learnt online from the public API: the shard whose size grew on the key's
+/// first insertion, or (shard full) the shard of the entry the callback reported as evicted to make room for it.
+struct HugeSt { shards: Vec<FastLru>, assign: HashMap<u64, usize>, next_id: u64, evictions: u64, ops: u64 }
+impl HugeSt {
+    fn apply(&mut self, c: &mut Case, map: &dyn SeqMap, rec: &Rec, op: Op) -> Res {
+        let ns = self.shards.len(); self.ops += 1; let i = self.ops;
+        match op {
+            Op::Put(k) => { let id = self.next_id; self.next_id += 1;
+                let before = if ns > 1 && !self.assign.contains_key(&k) { map.shard_sizes() } else { None };
+                let r = match map.put(k, Tracked::new(id)) { Ok(r) => r.map(|t| t.id), Err(e) => return fail("put_err", format!("op {i}: put({k:#x}) Err({e}); len()={}", map.len())) };
+                let evs = rec.take();
+                let s = match self.assign.get(&k) { Some(&s) => s, None => { let s = if ns == 1 { 0 } else { let after = map.shard_sizes().unwrap_or_default(); let b = before.unwrap_or_default();
+                            let grown: Vec<usize> = (0..after.len().min(b.len())).filter(|&j| after[j] == b[j] + 1).collect();
+                            if grown.len() == 1 { grown[0] } else if evs.len() == 1 && self.assign.contains_key(&evs[0].0) { self.assign[&evs[0].0] } else { return fail("shard_assign_unobservable", format!("op {i}: first put({k:#x}) changed shard sizes {b:?} -> {after:?} with callback events {evs:?}")); } };
+                        self.assign.insert(k, s); s } };
+                let (want_old, want_ev) = self.shards[s].put(k, id);
+                ensure!(r == want_old, "put_return", "op {i}: put({k:#x}) returned old={r:?} want {want_old:?}");
+                for e in &evs { ensure!(e.2, "evict_cb_value_corrupt", "op {i}: callback got a dropped/corrupted value for key {:#x}", e.0); }
+                match (want_ev, evs.as_slice()) { (None, []) => {} (Some(w), [g]) if (g.0, g.1) == w => { self.evictions += 1; }
+                    (Some(w), []) => return fail("evict_cb_missing", format!("op {i}: shard {s} is full ({} entries); the model evicts (key {:#x}, value {}) to make room for key {k:#x} but the callback was not invoked", self.shards[s].cap, w.0, w.1)),
+                    (w, g) => { let k0 = g[0].0; let still = self.assign.get(&k0).map(|&sh| self.shards[sh].peek(k0) == Some(g[0].1)).unwrap_or(false) && map.get(k0).map(|t| t.id) == Some(g[0].1);
+                        return fail(if still { "evict_cb_for_retrievable" } else { "evict_cb_unexpected" }, format!("op {i}: put({k:#x}) into shard {s}: callback events {g:?}, the model's LRU victim is {w:?}")); } }
+                c.ev(2); }
+            Op::Get(k) => { let want = self.assign.get(&k).and_then(|&s| self.shards[s].get(k)); let g = map.get(k); if let Some(t) = &g { ensure!(t.intact(), "value_corrupt", "op {i}: get({k:#x}) returned a dropped/corrupted value"); } let g = g.map(|t| t.id);
+                if g != want { let cls = match (g, want) { (Some(_), None) => "get_returned_absent", (None, Some(_)) => "lost_entry", _ => "stale_value" }; return fail(cls, format!("op {i}: get({k:#x})={g:?} want {want:?}")); } c.ev(1); }
+            Op::Remove(k) => { let want = self.assign.get(&k).and_then(|&s| self.shards[s].remove(k)); let g = map.remove(k).map(|t| t.id); ensure!(g == want, "remove_return", "op {i}: remove({k:#x})={g:?} want {want:?}"); let _ = rec.take(); c.ev(1); }
+            Op::Contains(k) => { let want = self.assign.get(&k).map(|&s| self.shards[s].peek(k).is_some()).unwrap_or(false); let g = map.contains(k); ensure!(g == want, "contains", "op {i}: contains_key({k:#x})={g} want {want}"); c.ev(1); }
+            _ => {}
+        }
+        Ok(())
+    }
+    fn len(&self) -> usize { self.shards.iter().map(|s| s.map.len()).sum() }
+    fn check_sizes(&self, c: &mut Case, map: &dyn SeqMap, when: &str) -> Res {
+        let l = map.len(); let cap: usize = self.shards.iter().map(|s| s.cap).sum(); ensure!(l <= cap, "len_gt_capacity", "{when}: len()={l} > capacity {cap}"); ensure!(l == self.len(), "len", "{when}: len()={l} model {}", self.len());
+        if let Some(ss) = map.shard_sizes() { for (j, &n) in ss.iter().enumerate() { ensure!(n <= self.shards[j].cap, "shard_gt_capacity", "{when}: shard {j} holds {n} > {}", self.shards[j].cap); ensure!(n == self.shards[j].map.len(), "shard_size", "{when}: shard_sizes()[{j}]={n} model {}", self.shards[j].map.len()); } }
+        c.ev(1); Ok(())
+    }
+}
+const HUGE_CAPS: &[usize] = &[65537, 131073, 196609, 262145, 65536, 65535, 100003];
+/// key of index i: small integers / differing only in the high bytes / multiplicative scramble
+fn huge_key(mode: u32, i: u64) -> u64 { match mode { 0 => i, 1 => i << 40, _ => i.wrapping_mul(0x9E37_79B9_7F4A_7C15) | 1 } }
+
+fn huge_lru_history(c: &mut Case, map: &dyn SeqMap, rec: &Rec, cap: usize, ns: usize, mode: u32) -> Res {
+    let total = (cap * ns) as u64; let mut st = HugeSt { shards: (0..ns).map(|_| FastLru::new(cap)).collect(), assign: HashMap::new(), next_id: 1, evictions: 0, ops: 0 };
+    ensure!(map.capacity() == total as usize, "capacity", "capacity()={} want {total}", map.capacity());
+    let key = |i: u64| huge_key(mode, i);
+    // 1. fill: exactly `total` distinct keys (a single map is now exactly full; shards fill unevenly and start evicting on their own)
+    for i in 0..total { st.apply(c, map, rec, Op::Put(key(i)))?; if i == 65535 || i == 65536 || i == 131072 { st.check_sizes(c, map, "fill")?; } }
+    st.check_sizes(c, map, "after fill")?;
+    // 2. reshuffle recency across the whole node array: gets of scattered residents (incl. node indices around 2^16 / 2^17), some misses, some overwrites
+    let nshuffle = (total / 3).min(60_000);
+    for _ in 0..nshuffle { let i = if c.rng.chance(1, 8) { *c.rng.pick(&[65534u64, 65535, 65536, 65537, 131071, 131072, 131073, 0, 1]) % total } else { c.rng.below(total) };
+        let op = match c.rng.below(10) { 0 => Op::Put(key(i)), 1 => Op::Contains(key(i)), 2 => Op::Get(key(total + c.rng.below(1000))), _ => Op::Get(key(i)) }; st.apply(c, map, rec, op)?; }
+    // 3. more than 65536 evictions in a row, every victim compared with the model; interleaved refreshes so that the order is never the insertion order
+    let extra = 70_000u64; let mut next = total;
+    for j in 0..extra { st.apply(c, map, rec, Op::Put(key(next)))?; next += 1;
+        if j % 5 == 0 { let i = c.rng.below(next); st.apply(c, map, rec, Op::Get(key(i)))?; } if j % 11 == 0 { let i = c.rng.below(next); if st.assign.get(&key(i)).map(|&s| st.shards[s].peek(key(i)).is_some()).unwrap_or(false) { st.apply(c, map, rec, Op::Put(key(i)))?; } } }
+    st.check_sizes(c, map, "after eviction run")?;
+    // 4. removals (free-list re-use of high node indices), re-insertion, a second eviction run
+    for _ in 0..6000 { let i = c.rng.below(next); st.apply(c, map, rec, Op::Remove(key(i)))?; }
+    st.check_sizes(c, map, "after removals")?;
+    for _ in 0..12_000 { st.apply(c, map, rec, Op::Put(key(next)))?; next += 1; if c.rng.chance(1, 4) { let i = c.rng.below(next); st.apply(c, map, rec, Op::Get(key(i)))?; } }
+    st.check_sizes(c, map, "after second run")?;
+    // 5. final: every 5th resident from LRU to MRU plus both ends of every shard must be served with the right value; evicted keys must miss
+    for s in 0..ns { let ks: Vec<u64> = st.shards[s].order.values().copied().collect(); let n = ks.len(); for (j, k) in ks.into_iter().enumerate() { if j % 5 == 0 || j < 64 || j + 64 >= n { st.apply(c, map, rec, Op::Get(k))?; } } }
+    for _ in 0..5000 { let i = c.rng.below(next); st.apply(c, map, rec, Op::Get(key(i)))?; st.apply(c, map, rec, Op::Contains(key(i)))?; }
+    let extra_ev = rec.take(); ensure!(extra_ev.is_empty(), "evict_cb_unexpected", "callback events during read-only operations: {:?}", &extra_ev[..extra_ev.len().min(3)]);
+    st.check_sizes(c, map, "final")?;
+    c.note("evictions", st.evictions); c.note("ops", st.ops); c.note("keys_seen", st.assign.len() as u64);
+    Ok(())
+}
+
+fn huge_lrumap(c: &mut Case, preset: &str) -> Res {
+    mon::tracked_reset();
+    let cap = *c.rng.pick(HUGE_CAPS); let mode = c.rng.below(3) as u32;
+    c.input_str("cfg", &format!("preset={preset} cap={cap} keymode={mode} huge")); let s = c.rng.next(); c.input("rng", &s.to_le_bytes()); c.set_nontrivial(true);
+    let rec = Rec::default();
+    let map = match nopanic("constructor", || if preset == "ctor_cb" { LruMap::<u64, Tracked, Rec>::with_eviction_callback(cap, rec.clone()) } else { LruMap::<u64, Tracked, Rec>::with_config_and_callback(lru_cfg(preset, cap), rec.clone()) })? { Ok(m) => m, Err(e) => return fail("ctor_err", format!("capacity {cap}: {e}")) };
+    let r = huge_lru_history(c, &map, &rec, cap, 1, mode);
+    drop(map); let _ = rec.take(); r?;
+    let errs = mon::tracked_errors(); ensure!(errs.is_empty(), "double_drop", "{}", errs.join("; ")); ensure!(mon::tracked_live() == 0, "value_leak", "{} values still alive after the map was dropped", mon::tracked_live());
+    Ok(())
+}
+fn huge_clru(c: &mut Case, variant: &str) -> Res {
+    mon::tracked_reset();
+    let (mut cfg, via_ctor) = match variant { "preset_default" => (ConcurrentLruMapConfig::default(), false), "preset_perf" => (ConcurrentLruMapConfig::performance_optimized(), false), "preset_mem" => (ConcurrentLruMapConfig::memory_optimized(), false),
+        "ctor_cb" => (ConcurrentLruMapConfig { shard_count: *c.rng.pick(&[1usize, 2, 4]), ..Default::default() }, true),
+        v => { let n: usize = v[1..].parse().unwrap(); let base = *c.rng.pick(&["default", "perf", "mem", "sec"]); (ConcurrentLruMapConfig { base_config: lru_cfg(base, 1), shard_count: n, load_balancing: LoadBalancingStrategy::Hash }, false) } };
+    let ns = cfg.shard_count;
+    // one shard: capacity just above 2^16..2^18; several shards: the *total* just above those limits, or every shard above 2^16
+    let cap = if ns == 1 { *c.rng.pick(HUGE_CAPS) } else if c.rng.chance(1, 4) && ns <= 4 { 65537 } else { (*c.rng.pick(&[65537usize, 131073, 196609, 262145]) + ns - 1) / ns };
+    cfg.base_config.capacity = cap; let mode = c.rng.below(3) as u32;
+    c.input_str("cfg", &format!("variant={variant} shards={ns} cap_per_shard={cap} keymode={mode} huge")); let s = c.rng.next(); c.input("rng", &s.to_le_bytes()); c.set_nontrivial(true);
+    let rec = Rec::default();
+    let map = match nopanic("constructor", || if via_ctor { ConcurrentLruMap::<u64, Tracked, Rec>::with_eviction_callback(cap * ns + c.rng.usize_below(ns), ns, rec.clone()) } else { ConcurrentLruMap::<u64, Tracked, Rec>::with_config_and_callback(cfg.clone(), rec.clone()) })? { Ok(m) => m, Err(e) => { c.note("ctor_err", 1); c.log(format!("{e}")); c.set_nontrivial(false); return Ok(()); } };
+    let r = huge_lru_history(c, &map, &rec, cap, ns, mode);
+    drop(map); let _ = rec.take(); r?;
+    let errs = mon::tracked_errors(); ensure!(errs.is_empty(), "double_drop", "{}", errs.join("; ")); ensure!(mon::tracked_live() == 0, "value_leak", "{} values still alive after the map was dropped", mon::tracked_live());
+    Ok(())
+}
+
+/// Concurrent history on a map whose capacity is just above 2^16 (in total or per shard), started full: evictions and node re-use at indices > 65535.
+fn huge_conc_case(c: &mut Case, shards: usize) -> Res {
+    let ns = shards.max(1); let total = *c.rng.pick(&[65537usize, 131073]); let cap = (total + ns - 1) / ns; let tot = (cap * ns) as u64;
+    let plan = ConcPlan { readers: 2 + c.rng.usize_below(2), writers: 1 + c.rng.usize_below(2), removers: c.rng.usize_below(2), ops: 25_000, nkeys: tot + 30_000, clear_pct: 0, ample: false, prefill: tot };
+    c.input_str("cfg", &format!("shards={shards} cap_per_shard={cap} nkeys={} readers={} writers={} removers={} ops={} prefill={tot} workload=huge_evict", plan.nkeys, plan.readers, plan.writers, plan.removers, plan.ops));
+    let s = c.rng.next(); c.input("rngstate", &s.to_le_bytes()); c.set_nontrivial(true); c.tag("conc_get_vs_evicting_put"); if plan.removers > 0 { c.tag("conc_remove_vs_put"); }
+    let rec = RecU::default();
+    let map: Arc<dyn ConcMap> = if shards == 0 { Arc::new(LruMap::<u64, u64, RecU>::with_config_and_callback(lru_cfg(*c.rng.pick(&["default", "perf", "mem"]), cap), rec.clone()).map_err(|e| bad("ctor_err", format!("{e}")))?) }
+        else { Arc::new(ConcurrentLruMap::<u64, u64, RecU>::with_config_and_callback(ConcurrentLruMapConfig { base_config: lru_cfg("default", cap), shard_count: shards, load_balancing: LoadBalancingStrategy::Hash }, rec.clone()).map_err(|e| bad("ctor_err", format!("{e}")))?) };
+    conc_run(c, map, rec, &plan, cap)
+}
+
+/// Sparse file larger than 4 GiB (set_len; a handful of data islands), tiny cache. Oracle: pread on an independent handle.
+/// Islands sit on pages whose ids differ only in bit 16 / bit 20 (truncated or badly hashed page ids would alias them), around
+/// offset 2^32 (page id 2^20), 2^28 (page id 2^16) and right before EOF.
+fn pagecache_huge_sparse(c: &mut Case, single: bool, preset: &str) -> Res {
+    use std::os::unix::fs::FileExt;
+    let (cfg, cfgs) = pc_config(preset, c);
+    let dir = tempfile::tempdir().map_err(|e| bad("__inconclusive", format!("tempdir: {e}")))?;
+    const G4: u64 = 1 << 32; let pg = PAGE_SIZE as u64;
+    let size: u64 = *c.rng.pick(&[G4 + 3 * pg + 123, G4 + 1, G4 + pg, 2 * G4 + 4097, 3 * G4 + 10_000, (1u64 << 40) + 5000, G4 + (1 << 28) + 77]);
+    let path = dir.path().join("sparse.bin"); let f = std::fs::OpenOptions::new().create(true).read(true).write(true).open(&path).map_err(|e| bad("__inconclusive", format!("create: {e}")))?;
+    if let Err(e) = f.set_len(size) { c.note("set_len_refused", 1); c.log(format!("set_len({size}): {e}")); return Ok(()); }
+    let p0 = 3 + c.rng.below(9); // low page id shared by the aliasing islands
+    let mut starts: Vec<u64> = vec![p0 * pg, (p0 + (1 << 16)) * pg, (p0 + (1 << 20)) * pg, (p0 + (1 << 20) + (1 << 16)) * pg, G4 - 6000, G4 - 1, (1 << 28) - 50, (65535 * pg) + 4000, G4 + (1 << 27), size.saturating_sub(5000), size.saturating_sub(1), 2 * G4 - 3000, 2 * G4 + p0 * pg];
+    starts.retain(|&o| o < size); starts.sort(); starts.dedup();
+    let mut islands: Vec<(u64, usize)> = vec![];
+    for &o in &starts { let len = (1 + c.rng.usize_below(3 * PAGE_SIZE)).min((size - o) as usize); let data = c.rng.bytes(len); f.write_all_at(&data, o).map_err(|e| bad("__inconclusive", format!("write_at {o}: {e}")))?; islands.push((o, len)); }
+    let nops = 40 + c.rng.usize_below(50);
+    c.input_str("cfg", &format!("{} preset={preset} {cfgs} sparse size={size} islands={} p0={p0} nops={nops}", if single { "single" } else { "lru" }, islands.len())); let sd = c.rng.next(); c.input("rng", &sd.to_le_bytes()); c.set_nontrivial(true);
+    let cache = match nopanic("constructor", || if single { SingleLruPageCache::new(cfg.clone()).map(Pc::Single) } else { LruPageCache::new(cfg.clone()).map(Pc::Lru) })? { Ok(x) => x, Err(e) => { c.note("ctor_err", 1); c.log(format!("ctor: {e}")); return Ok(()); } };
+    let id = cache.open(&path).map_err(|e| bad("open_err", format!("{e}")))?;
+    match cache.file_size(id) { Ok(s) => ensure!(s == size, "file_size", "file_size()={s} want {size}"), Err(e) => return fail("file_size", format!("{e}")) }
+    let direct = |off: u64, len: usize| -> Result<Vec<u8>, Fail> { let n = (size.saturating_sub(off)).min(len as u64) as usize; let mut b = vec![0u8; n]; let mut got = 0; while got < n { let r = f.read_at(&mut b[got..], off + got as u64).map_err(|e| bad("__inconclusive", format!("pread: {e}")))?; if r == 0 { break; } got += r; } b.truncate(got); Ok(b) };
+    let mut kept: Vec<(CacheBuffer, Vec<u8>, u64)> = vec![]; let mut nonzero = 0u64;
+    for step in 0..nops {
+        // where: an island edge, a 2^16 / 2^20 page-id boundary, anywhere, or the tail
+        let (off, len) = match c.rng.below(10) {
+            0..=4 => { let (o, l) = *c.rng.pick(&islands); let d = c.rng.below(300); let off = if c.rng.bool() { o.saturating_sub(d) } else { (o + l as u64).saturating_sub(d + 1) }; (off, 1 + c.rng.usize_below(2 * PAGE_SIZE + 10)) }
+            5 => { let b = *c.rng.pick(&[G4, 1u64 << 28, 2 * G4, (1u64 << 20) * pg + pg]); let d = c.rng.below(5000); (b.saturating_sub(d).min(size - 1), 1 + c.rng.usize_below(3 * PAGE_SIZE)) }
+            6 => (c.rng.below(size), c.rng.usize_below(2 * PAGE_SIZE)),
+            7 => (size - 1 - c.rng.below(9000.min(size - 1)), 1 + c.rng.usize_below(3000)),
+            8 => { let (o, l) = islands[islands.len() - 1 - c.rng.usize_below(islands.len().min(3))]; (o, l) }
+            _ => { let (o, _) = *c.rng.pick(&islands); ((o / pg) * pg, PAGE_SIZE) }
+        };
+        let len = len.min((size - off) as usize); // in-range reads only (EOF crossing is the `eof` family)
+        let x = c.rng.below(100);
+        if x < 70 { let want = direct(off, len)?; let alt = c.rng.bool();
+            let b = nopanic("read", || cache.read(id, off, len, alt))?.map_err(|e| bad("read_err", format!("step {step}: read(off={off}, len={len}) inside a {size}-byte file: Err({e})")))?;
+            if want.iter().any(|&x| x != 0) { nonzero += 1; }
+            check_buf(c, "read (sparse file, offset beyond 2^16 / 2^20 pages)", &b, &want, off, step)?;
+            if c.rng.chance(1, 6) && kept.len() < 10 { kept.push((b, want, off)); }
+        } else if x < 78 { nopanic("prefetch", || cache.prefetch(id, off, len))?.map_err(|e| bad("prefetch_err", format!("step {step}: prefetch(off={off}): {e}")))?; }
+        else if x < 86 { let p = (off / pg) as u32; nopanic("invalidate_page", || cache.invalidate_page(id, p))?.map_err(|e| bad("invalidate_err", format!("step {step}: invalidate_page({p}): {e}")))?; }
+        else { // rewrite part of an island in place, invalidate, re-read
+            let (o, l) = *c.rng.pick(&islands); let a = c.rng.usize_below(l); let n = 1 + c.rng.usize_below(l - a); let _ = cache.read(id, o, l, false);
+            let nb = c.rng.bytes(n); f.write_all_at(&nb, o + a as u64).map_err(|e| bad("__inconclusive", format!("rewrite: {e}")))?;
+            if c.rng.bool() { nopanic("invalidate_range", || cache.invalidate_range(id, o + a as u64, n))?.map_err(|e| bad("invalidate_err", format!("{e}")))?; } else { for p in ((o + a as u64) / pg)..=((o + a as u64 + n as u64 - 1) / pg) { nopanic("invalidate_page", || cache.invalidate_page(id, p as u32))?.map_err(|e| bad("invalidate_err", format!("{e}")))?; } }
+            let want = direct(o, l)?; let b = nopanic("read", || cache.read(id, o, l, false))?.map_err(|e| bad("read_err", format!("step {step}: {e}")))?;
+            if b.data() != &want[..] { return fail("stale_after_invalidate", format!("step {step}: island at offset {o} (page {}) rewritten at +{a}..+{} and invalidated, read returns different bytes", o / pg, a + n)); } c.ev(1); c.note("rewrites", 1); }
+    }
+    // all islands once more, in aliasing order, then the kept buffers
+    for &(o, l) in &islands { let want = direct(o, l)?; let b = cache.read(id, o, l, false).map_err(|e| bad("read_err", format!("final island read at {o}: {e}")))?; check_buf(c, "final island read", &b, &want, o, nops)?; }
+    for (b, want, off) in &kept { if b.data() != &want[..] { return fail("kept_buffer_changed", format!("CacheBuffer from the read at offset {off} changed after later evictions")); } c.ev(1); }
+    let (h, m, e) = cache.counters(); c.note("pc_hit", h); c.note("pc_miss", m); c.note("pc_evict", e); c.note("reads_with_data", nonzero);
+    Ok(())
+}
+
+/// Dense multi-MiB file: single reads far longer than the whole cache (eviction in the middle of one read), lengths around 2^16 / 2^20.
+fn pagecache_huge_dense(c: &mut Case, single: bool, preset: &str) -> Res {
+    let (cfg, cfgs) = pc_config(preset, c);
+    let dir = tempfile::tempdir().map_err(|e| bad("__inconclusive", format!("tempdir: {e}")))?;
+    let size = *c.rng.pick(&[65537usize, 131073, (1 << 20) - 1, 1 << 20, (1 << 20) + 1, 3 * (1 << 20) + 17, 5 * (1 << 20) + 4095]);
+    let data = file_bytes(c.rng.next(), size); let path = dir.path().join("dense.bin"); std::fs::write(&path, &data).map_err(|e| bad("__inconclusive", format!("write: {e}")))?;
+    let nops = 8 + c.rng.usize_below(10);
+    c.input_str("cfg", &format!("{} preset={preset} {cfgs} dense size={size} nops={nops}", if single { "single" } else { "lru" })); let sd = c.rng.next(); c.input("rng", &sd.to_le_bytes()); c.set_nontrivial(true);
+    let cache = match nopanic("constructor", || if single { SingleLruPageCache::new(cfg.clone()).map(Pc::Single) } else { LruPageCache::new(cfg.clone()).map(Pc::Lru) })? { Ok(x) => x, Err(e) => { c.note("ctor_err", 1); c.log(format!("ctor: {e}")); return Ok(()); } };
+    let id = cache.open(&path).map_err(|e| bad("open_err", format!("{e}")))?;
+    for step in 0..nops {
+        let len = match c.rng.below(6) { 0 => 65535, 1 => 65536, 2 => 65537, 3 => (1 << 20) + c.rng.usize_below(3), 4 => size, _ => c.rng.usize_below(size + 1) }.min(size);
+        let off = match c.rng.below(4) { 0 => 0, 1 => size - len, _ => c.rng.usize_below(size - len + 1) };
+        match c.rng.below(8) {
+            0 => { nopanic("prefetch", || cache.prefetch(id, off as u64, len))?.map_err(|e| bad("prefetch_err", format!("step {step}: {e}")))?; }
+            1 => { nopanic("invalidate_range", || cache.invalidate_range(id, off as u64, len))?.map_err(|e| bad("invalidate_err", format!("step {step}: {e}")))?; }
+            _ => { let alt = c.rng.bool(); let b = nopanic("read", || cache.read(id, off as u64, len, alt))?.map_err(|e| bad("read_err", format!("step {step}: read(off={off}, len={len}): Err({e})")))?; check_buf(c, "long read", &b, &data[off..off + len], off as u64, step)?; c.ev((len / PAGE_SIZE) as u64); }
+        }
+    }
+    let (h, m, e) = cache.counters(); c.note("pc_hit", h); c.note("pc_miss", m); c.note("pc_evict", e);
+    Ok(())
+}
+
+/// Blobs of 64 KiB .. 3 MiB (hundreds of pages through a cache of a few pages) or > 65536 tiny blobs (record ids above 2^16).
+fn cachedblob_huge(c: &mut Case, strat: CacheWriteStrategy, many: bool) -> Res {
+    let pages = *c.rng.pick(&[0usize, 2, 8, 64]); let cfg = PageCacheConfig::balanced().with_capacity((pages * PAGE_SIZE).max(1000));
+    c.input_str("cfg", &format!("strategy={strat:?} cache_pages={pages} huge many={many}")); let sd = c.rng.next(); c.input("rng", &sd.to_le_bytes()); c.set_nontrivial(true);
+    let mut store = CachedBlobStore::with_write_strategy(MemoryBlobStore::new(), cfg, strat).map_err(|e| bad("ctor_err", format!("{e}")))?; let mut twin = MemoryBlobStore::new();
+    let mut blobs: Vec<(u32, Vec<u8>)> = vec![];
+    if many { let n = 65_536 + 1 + c.rng.usize_below(5000);
+        for i in 0..n { let l = c.rng.usize_below(9); let mut b = c.rng.bytes(l); if l > 0 { b[0] = i as u8; } let a = store.put(&b).map_err(|e| bad("put_err", format!("put #{i}: {e}")))?; let t = twin.put(&b).map_err(|e| bad("__inconclusive", format!("{e}")))?; ensure!(a == t, "put_id", "put #{i}: cached store id {a}, plain store {t}"); if i % 97 == 0 || i + 300 > n || (65_400..65_700).contains(&i) { blobs.push((a, b)); } }
+        ensure!(BlobStore::len(&store) == n, "len", "len()={} after {n} puts", BlobStore::len(&store));
+    } else { let mut total = 0usize;
+        while total < 6 * (1 << 20) && blobs.len() < 8 { let len = *c.rng.pick(&[65535usize, 65536, 65537, 131071, 131073, (1 << 20) - 1, 1 << 20, (1 << 20) + 1, 3 * (1 << 20) + 5]); let kind = *c.rng.pick(&[0u32, 1, 2, 8, 9, 13, 6]); let mut b = gen::bytes_kind(&mut c.rng, kind, len);
+            if c.rng.chance(1, 3) && len >= 131072 { let h = len / 2; let (x, y) = b.split_at_mut(h); y[..h].copy_from_slice(&x[..h]); let last = b.len() - 1; b[last] ^= 0x5a; } // X X' with one differing byte at the end
+            total += len; let a = store.put(&b).map_err(|e| bad("put_err", format!("put of {len} bytes: {e}")))?; let t = twin.put(&b).map_err(|e| bad("__inconclusive", format!("{e}")))?; ensure!(a == t, "put_id", "cached store id {a}, plain store {t}"); blobs.push((a, b)); } }
+    for round in 0..2 { for (id, b) in &blobs { let g = nopanic("get", || store.get(*id))?; let inner = store.inner().get(*id); c.ev(2);
+            match (&g, &inner) { (Ok(g), Ok(i)) => { if g != i { return fail("cached_get_mismatch", format!("get({id}) through the cache returned {} bytes, the wrapped store {} bytes (or different content)", g.len(), i.len())); } ensure!(g == b, "cached_get_vs_twin", "get({id}) differs from the {} bytes that were put", b.len()); } _ => return fail("cached_get_mismatch", format!("get({id}) cached ok={} wrapped ok={}", g.is_ok(), inner.is_ok())) }
+            ensure!(store.size(*id).ok().flatten() == Some(b.len()), "size", "size({id}) != {}", b.len()); }
+        if round == 0 { nopanic("prefetch_range", || store.prefetch_range((1u64 << 32) - 5000, 3 * PAGE_SIZE))?.map_err(|e| bad("prefetch_err", format!("{e}")))?; let _ = store.flush();
+            for (id, _) in blobs.iter().step_by(3) { let a = store.remove(*id); let t = twin.remove(*id); ensure!(a.is_ok() == t.is_ok(), "remove", "remove({id}) ok={} twin ok={}", a.is_ok(), t.is_ok()); ensure!(store.get(*id).is_err(), "get_after_remove", "get({id}) after remove succeeded"); }
+            let keep: Vec<(u32, Vec<u8>)> = blobs.iter().enumerate().filter(|(i, _)| i % 3 != 0).map(|(_, b)| b.clone()).collect(); blobs = keep; } }
+    ensure!(BlobStore::len(&store) == twin.len(), "len", "len()={} twin {}", BlobStore::len(&store), twin.len());
+    Ok(())
+}
+
+/// FsaCache with max_states just above 2^16 / 10^5: state ids beyond 65535, several eviction rounds of ~10 % each.
+fn fsacache_huge(c: &mut Case, strat: CacheStrategy) -> Res {
+    let max_states = *c.rng.pick(&[65537usize, 100_003, 131_073]); let n = max_states + 40_000;
+    c.input_str("cfg", &format!("strategy={strat:?} max_states={max_states} inserts={n} huge")); let sd = c.rng.next(); c.input("rng", &sd.to_le_bytes()); c.set_nontrivial(true);
+    let mut cache = FsaCache::with_config(FsaCacheConfig { max_states, strategy: strat, compressed_paths: true, use_hugepages: false, max_memory_bytes: 0 }).map_err(|e| bad("ctor_err", format!("{e}")))?;
+    let mut model: HashMap<u32, (u32, u32, bool)> = HashMap::new(); let mut paths: HashMap<u32, Vec<u8>> = HashMap::new(); let (mut sweeps, mut evicted) = (0u64, 0u64);
+    for i in 0..n {
+        let (parent, base, term) = (if c.rng.chance(1, 8) { (1 << 24) - 1 - c.rng.below(3) as u32 } else { c.rng.below(1 << 24) as u32 }, c.rng.next() as u32, c.rng.bool());
+        let id = cache.cache_state(parent, base, term).map_err(|e| bad("cache_state_err", format!("insert #{i}: {e}")))?;
+        model.insert(id, (parent, base, term)); paths.remove(&id);
+        let st = match cache.get_state(id) { Some(s) => s, None => return fail("lost_entry", format!("insert #{i}: state {id} is not retrievable right after cache_state returned it")) };
+        ensure!((st.parent(), st.child_base, st.is_terminal()) == (parent, base, term) && !st.is_free(), "stale_value", "insert #{i}: get_state({id}) = ({}, {}, {}) want ({parent}, {base}, {term})", st.parent(), st.child_base, st.is_terminal());
+        if cache.get_zero_path(id).is_some() { return fail("stale_zero_path", format!("insert #{i}: freshly cached state {id} already has a zero-path (left over from an evicted state with the same id)")); }
+        if i % 16 == 0 { let seg = vec![(id & 0xff) as u8, (id >> 8) as u8, (id >> 16) as u8]; let mut zp = ZeroPathData::new(); let _ = zp.add_segment(&seg); cache.add_zero_path(id, zp).map_err(|e| bad("add_zero_path_err", format!("{e}")))?; paths.insert(id, seg); }
+        let cs = cache.stats().cached_states; ensure!(cs <= max_states, "len_gt_capacity", "insert #{i}: {cs} states cached, max_states {max_states}"); c.ev(2);
+        if cs != model.len() { // an eviction round happened: re-synchronise (what is gone must be gone consistently, what is left must be exact)
+            sweeps += 1; let keys: Vec<u32> = model.keys().copied().collect();
+            for k in keys { match cache.get_state(k) { None => { model.remove(&k); paths.remove(&k); evicted += 1; ensure!(cache.get_zero_path(k).is_none(), "stale_zero_path", "zero-path of evicted state {k} still served"); }
+                Some(st) => { let w = model[&k]; ensure!((st.parent(), st.child_base, st.is_terminal()) == w, "stale_value", "after eviction get_state({k}) = ({}, {}, {}) want {w:?}", st.parent(), st.child_base, st.is_terminal()); } } }
+            ensure!(cs == model.len(), "len", "insert #{i}: stats().cached_states={cs}, {} states retrievable", model.len()); c.ev(model.len() as u64); }
+    }
+    for (k, seg) in paths.iter().take(20_000) { let got = cache.get_zero_path(*k).map(|z| z.get_full_path()); ensure!(got.as_deref() == Some(&seg[..]), "stale_zero_path", "get_zero_path({k}) = {:?} want {seg:?}", got); c.ev(1); }
+    let mut ks: Vec<u32> = model.keys().copied().collect(); ks.sort(); for k in ks.iter().step_by(7).take(5000) { ensure!(cache.remove_state(*k), "remove_return", "remove_state({k}) = false for a cached state"); ensure!(cache.get_state(*k).is_none(), "get_returned_absent", "get_state({k}) after remove_state"); model.remove(k); }
+    ensure!(cache.stats().cached_states == model.len(), "len", "after removals cached_states={} want {}", cache.stats().cached_states, model.len());
+    c.note("evicted", evicted); c.note("sweeps", sweeps); c.note("max_id", model.keys().copied().max().unwrap_or(0) as u64);
+    Ok(())
+}
+
+// =============================================================================================
 pub fn run(ctx: &mut Ctx) {
     // ---- LruMap, sequential ----
     let fams = ["mixed", "scan", "getheavy", "churn", "clear", "clearfull", "cap1"];
@@ -727,5 +993,23 @@ pub fn run(ctx: &mut Ctx) {
     // ---- fsa cache ----
     for (name, st) in [("bfs", CacheStrategy::BreadthFirst), ("dfs", CacheStrategy::DepthFirst), ("cache_friendly", CacheStrategy::CacheFriendly)] {
         for idx in 0..ctx.n(40, 1000) as u64 { ctx.case(&format!("fsacache/{name}"), "hist", idx, |c| fsacache_case(c, st)); }
+    }
+    // ---- large-input families (same targets, generator names start with huge_) ----
+    for preset in ["default", "perf", "mem", "sec", "ctor_cb"] { for idx in 0..ctx.n(if preset == "default" { 3 } else { 2 }, 30) as u64 { ctx.case(&format!("lrumap/{preset}"), "huge_cap", idx, |c| huge_lrumap(c, preset)); } }
+    for variant in ["s1", "s2", "s4", "s8", "preset_default", "preset_perf", "preset_mem", "ctor_cb"] { for idx in 0..ctx.n(if variant.starts_with('s') { 2 } else { 1 }, 20) as u64 { ctx.case(&format!("clru/{variant}"), "huge_cap", idx, |c| huge_clru(c, variant)); } }
+    for idx in 0..ctx.n(2, 20) as u64 { ctx.case("lrumap/conc", "huge_evict", idx, |c| huge_conc_case(c, 0)); for s in [1usize, 2, 4] { ctx.case(&format!("clru/conc/s{s}"), "huge_evict", idx, |c| huge_conc_case(c, s)); } }
+    for single in [false, true] {
+        for preset in ["balanced", "perf", "mem", "sec", "perf_huge"] {
+            let t = format!("pagecache/{}/{preset}", if single { "single" } else { "lru" });
+            if preset != "perf_huge" { for idx in 0..ctx.n(if preset == "balanced" { 10 } else { 5 }, 80) as u64 { ctx.case(&t, "huge_sparse", idx, |c| pagecache_huge_sparse(c, single, preset)); } }
+            for idx in 0..ctx.n(2, 30) as u64 { ctx.case(&t, "huge_dense", idx, |c| pagecache_huge_dense(c, single, preset)); }
+        }
+    }
+    for (name, st) in [("write_through", CacheWriteStrategy::WriteThrough), ("write_back", CacheWriteStrategy::WriteBack), ("write_around", CacheWriteStrategy::WriteAround)] {
+        for idx in 0..ctx.n(2, 20) as u64 { ctx.case(&format!("cachedblob/{name}"), "huge_blobs", idx, |c| cachedblob_huge(c, st, false)); }
+        for idx in 0..ctx.n(1, 8) as u64 { ctx.case(&format!("cachedblob/{name}"), "huge_many", idx, |c| cachedblob_huge(c, st, true)); }
+    }
+    for (name, st) in [("bfs", CacheStrategy::BreadthFirst), ("dfs", CacheStrategy::DepthFirst), ("cache_friendly", CacheStrategy::CacheFriendly)] {
+        for idx in 0..ctx.n(2, 15) as u64 { ctx.case(&format!("fsacache/{name}"), "huge_states", idx, |c| fsacache_huge(c, st)); }
     }
 }
